@@ -28,11 +28,8 @@ def readFields : List Nat → Rd → Option (List Nat × Rd)
 
 def widths (l : List (String × Nat)) : List Nat := l.map (·.2)
 
-/-- value of a named field of a decoded structure (0 if the name is not in the layout, like a Go zero value) -/
-def fieldVal (layout : List (String × Nat)) (vals : List Nat) (name : String) : Nat :=
-  match layout, vals with
-  | (n, _) :: ls, v :: vs => if n = name then v else fieldVal ls vs name
-  | _, _ => 0
+/-- value of the i-th field (in read order) of a decoded structure -/
+def fieldAt (vals : List Nat) (i : Nat) : Nat := vals.getD i 0
 
 inductive V5Err where
   | short | badVersion | badCount | shortFlows
@@ -61,8 +58,8 @@ def decodeWith (hl rl : List (String × Nat)) (bs : Bytes) : Except V5Err Msg :=
   match readFields (widths hl) ⟨bs, 0⟩ with
   | none => .error .short
   | some (h, r) =>
-    let ver := fieldVal hl h "Version"
-    let cnt := fieldVal hl h "Count"
+    let ver := fieldAt h 0    -- Version (position checked against the generated layout in Props.C08)
+    let cnt := fieldAt h 1    -- Count
     if ver ≠ 5 then .error .badVersion else
     if cnt < 1 ∨ cnt > 30 then .error .badCount else
     if cnt * 48 > r.rem.length then .ok ⟨h, [], some .shortFlows⟩ else
@@ -76,28 +73,30 @@ def decode (bs : Bytes) : Except V5Err Msg :=
 
 /-! ## JSONMarshal -/
 
-/-- run a write program against a structure given by its layout and values -/
-def runWrites (agent : String) (layout : List (String × Nat)) (vals : List Nat) : List W → Bytes
+/-- run a write program against a structure given by its values in read order -/
+def runWrites (agent : Bytes) (vals : List Nat) : List W → Bytes
   | [] => []
-  | .lit s :: ws => str s ++ runWrites agent layout vals ws
-  | .num f :: ws => str (natToDec (fieldVal layout vals f)) ++ runWrites agent layout vals ws
-  | .ip f :: ws => str (ip4String (encBE 4 (fieldVal layout vals f))) ++ runWrites agent layout vals ws
-  | .agent :: ws => str agent ++ runWrites agent layout vals ws
-  | .unrecognised _ :: ws => runWrites agent layout vals ws
+  | .lit b :: ws => b ++ runWrites agent vals ws
+  | .num i :: ws => natDigits (fieldAt vals i) ++ runWrites agent vals ws
+  | .ip i :: ws => ip4Bytes (encBE 4 (fieldAt vals i)) ++ runWrites agent vals ws
+  | .agent :: ws => agent ++ runWrites agent vals ws
+  | .unrecognised _ :: ws => runWrites agent vals ws
 
-/-- `encodeFlows`: `{` flow `}` joined by commas inside `"Flows":[ … ]` -/
-def flowsJson (agent : String) (rl : List (String × Nat)) (prog : List W) : List (List Nat) → Bytes
+/-- `encodeFlows`: `{` flow `}` joined by commas -/
+def flowsJson (agent : Bytes) (prog : List W) : List (List Nat) → Bytes
   | [] => []
-  | [f] => str "{" ++ runWrites agent rl f prog ++ str "}"
-  | f :: fs => str "{" ++ runWrites agent rl f prog ++ str "}," ++ flowsJson agent rl prog fs
+  | [f] => [123] ++ runWrites agent f prog ++ [125]
+  | f :: fs => [123] ++ runWrites agent f prog ++ [125, 44] ++ flowsJson agent prog fs
 
-/-- `Message.JSONMarshal`, generic in layouts and write programs -/
-def marshalWith (hl rl : List (String × Nat)) (pa ph pf : List W) (agent : String) (m : Msg) : Bytes :=
-  str "{" ++ runWrites agent hl m.hdr pa ++ runWrites agent hl m.hdr ph ++
-    str "\"Flows\":[" ++ flowsJson agent rl pf m.flows ++ str "]" ++ str "}"
+/-- `"Flows":` -/
+def flowsKey : Bytes := [34, 70, 108, 111, 119, 115, 34, 58]
 
-def marshal (agent : String) (m : Msg) : Bytes :=
-  marshalWith Gen.Layouts.v5Header Gen.Layouts.v5Record
-    Gen.JsonWrites.v5Agent Gen.JsonWrites.v5Header Gen.JsonWrites.v5Flow agent m
+/-- `Message.JSONMarshal`, generic in the write programs -/
+def marshalWith (pa ph pf : List W) (agent : Bytes) (m : Msg) : Bytes :=
+  [123] ++ runWrites agent m.hdr pa ++ runWrites agent m.hdr ph ++
+    flowsKey ++ [91] ++ flowsJson agent pf m.flows ++ [93] ++ [125]
+
+def marshal (agent : Bytes) (m : Msg) : Bytes :=
+  marshalWith Gen.JsonWrites.v5Agent Gen.JsonWrites.v5Header Gen.JsonWrites.v5Flow agent m
 
 end Vflow.V5
